@@ -53,6 +53,7 @@ def setup(rep, tier):
     rep.minimum('R13.10', 3)
     rep.minimum('R13.11', 1)
     rep.minimum('R13.12', 1)
+    rep.minimum('R13.13', 1)
 
 
 def base_type(t):
@@ -646,7 +647,40 @@ def r13_12(rep, prog):
     return n
 
 
+# ------------------------------------------------------------------ R13.13
+def r13_13(rep, prog):
+    """the 24-bit projection de-mix accumulates one stream at a time into the caller's opus_int32 buffer: the
+    running sum must be clamped at the 32-bit limits, not wrapped.  A bare `+=` of a 64-bit term into the
+    32-bit output wraps for loud sound fields under a large decoder gain (C19: integer output saturates)."""
+    n = 0
+    for f in prog.functions_all:
+        if not f.file.endswith('mapping_matrix.c') or 'out_int24' not in f.name:
+            continue
+        rep.functions.add(f.name)
+        outp = [i for i, q in enumerate(f.params) if base_type(q['type']) == 'opus_int32' and '*' in q['type'] and 'const' not in q['type']]
+        if not outp:
+            rep.unresolved('R13.13', '%s: output parameter of %s not recognised' % (prog.config, f.name))
+            continue
+        for node in f.all_nodes():
+            if node[0] not in ('assign', 'cassign'):
+                continue
+            lv = sx.strip_paren(node[1] if node[0] == 'assign' else node[2])
+            if sx.kind(lv) != 'idx' or sx.key(sx.strip(lv[1])) != ('param', outp[0]):
+                continue
+            n += 1
+            rhs = node[2] if node[0] == 'assign' else node[3]
+            clamp = any(sx.kind(y) == 'cond' for y in sx.walk(rhs))
+            inst = '%s:%s clamps the running 32-bit sum' % (prog.config, f.name)
+            where = '%s:%s' % (f.file, sx.line(node))
+            if node[0] == 'assign' and clamp:
+                rep.holds('R13.13', inst, where, 'clamped store')
+            else:
+                rep.violated('R13.13', inst, where, '`%s` adds a 64-bit term into the 32-bit output without a clamp: the sum wraps to the opposite sign' % sx.show(node)[:70], key='%s:int32-wrap' % f.name)
+    return n
+
+
 def check(rep, prog, tier):
+    r13_13(rep, prog)
     r13_12(rep, prog)
     r13_11(rep, prog)
     r13_10(rep, prog)
